@@ -263,6 +263,19 @@ def gen_cases(rng, tier):
             if spec[0] in ("pre", "dtvia"):   # T(instance of T) is not the isinstance shortcut of __setattr__: histories only
                 continue
             cases.append({"kind": "coerce", "type": t, "value": spec})
+    # --- grouped records whose members declare one field name with DIFFERENT types, and list types whose element classes
+    # share a class name (net.tcp.Port / net.udp.Port are both called `port`)
+    G0 = {"_generated": ["dt", [2020, 1, 2, 3, 4, 5, 6], "utc", 0]}
+    for (ta, va), (tb, vb) in ((("varint", I(70000)), ("uint16", I(5))), (("varint", I(-5)), ("uint16", I(7))),
+                               (("string", S("not a time")), ("datetime", ["dt", [2020, 1, 2, 3, 4, 5, 6], "utc", 0])),
+                               (("uint16", I(5)), ("varint", I(70000))), (("float", F(0.5)), ("varint", I(3)))):
+        ma = ["rec", ["g/a", [[ta, "count"], ["string", "s"]]], [va, S("a")], G0]
+        mb = ["rec", ["g/b", [[tb, "count"], ["string", "u"]]], [vb, S("b")], G0]
+        cases.append({"kind": "grpflat", "name": "grp/c05", "members": [ma, mb]})
+        cases.append({"kind": "grpflat", "name": "grp/c05", "members": [mb, ma, mb]})
+    for types in (["net.tcp.Port[]", "net.udp.Port[]"], ["net.udp.Port[]", "net.tcp.Port[]"], ["string[]", "wstring[]", "uri[]"],
+                  ["uint16[]", "net.tcp.Port[]", "uint32[]"]):
+        cases.append({"kind": "listcls", "types": types, "values": [I(80), I(443)] if "string[]" not in types else [S("a")]})
     # --- fixed histories
     cases.append({"kind": "seq", "fields": [["boolean", "a"], ["uint16", "b"]], "args": [["bool", 1], I(5)],
                   "ops": [["assign", "a", F(0.5)], ["assign", "a", I(0)], ["assign", "b", I(65536)], ["assign", "b", I(65535)],
@@ -377,6 +390,25 @@ def run_real(case):
     from flow.record import RecordDescriptor
     from flow.record.base import fieldtype
     k = case["kind"]
+    if k == "grpflat":
+        # a grouped record: every field of its FLAT descriptor holds a value of the type that descriptor declares
+        from flow.record import GroupedRecord
+        from harness import values as _V
+        g = GroupedRecord(case["name"], [_V.build_record(m) for m in case["members"]])
+        out = []
+        for t, n in g._desc.get_field_tuples():
+            v = getattr(g, n)
+            out.append([n, t, type(v).__name__, v is None or isinstance(v, fieldtype(t))])
+        # ... and the two port list types resolved in one process keep their own element classes
+        return {"flat": out}
+    if k == "listcls":
+        out = []
+        for t in case["types"]:
+            d = RecordDescriptor("t/lc", [(t, "v")])
+            rec = d(v=[_build(x) for x in case["values"]])
+            el = fieldtype(t[:-2])
+            out.append([t, [type(e).__module__ + "." + type(e).__name__ for e in rec.v], all(type(e) is el for e in rec.v)])
+        return {"lists": out}
     if k == "coerce":
         t = case["type"]
         x = _build(case["value"])
@@ -537,6 +569,17 @@ def _check_decoded(fields, st, what):
 
 def oracle(case, obs):
     k = case["kind"]
+    if k == "grpflat":
+        for n, t, cls, ok in obs["flat"]:
+            if not ok:
+                return (f"grouped record: flat field {n} is declared {t} but holds a {cls} (members declare the name with "
+                        f"different types: the first member provides the value AND the type)")
+        return None
+    if k == "listcls":
+        for t, classes, ok in obs["lists"]:
+            if not ok:
+                return f"{t}: the list holds elements of class {classes} instead of the element type's own class"
+        return None
     if k == "coerce":
         if "error" in obs:
             return None
@@ -879,6 +922,8 @@ def _braw(spec):
 
 
 def model_op(case, obs):
+    if case["kind"] in ("grpflat", "listcls"):
+        return None
     toks = Toks()
     if _has_dtvia(json.loads(json.dumps(case)), "replace_naive"):
         return None      # a naive INSTANCE of the field type (recorded finding): the model only knows raw input
@@ -970,6 +1015,8 @@ def compare(case, obs, m):
 
 
 def nontrivial(case, obs):
+    if case["kind"] in ("grpflat", "listcls"):
+        return True
     if case["kind"] == "coerce":
         return "error" in obs or case["value"][0] in ("none", "float", "bytes", "list", "tuple", "dict", "rec", "bytearray") \
             or case["type"].endswith("[]")
@@ -978,6 +1025,8 @@ def nontrivial(case, obs):
 
 
 def classify(case, obs):
+    if case["kind"] in ("grpflat", "listcls"):
+        return case["kind"]
     if case["kind"] == "coerce":
         return [f"coerce:{case['type']}:{obs.get('error', 'accepted')}", f"input:{case['value'][0]}"]
     if "error" in obs["construct"]:
